@@ -49,11 +49,11 @@ Fixpoint read_u32s (n : nat) (b : bytes) : list N :=
 
 (** read_rle_header *)
 Definition read_rle_header (frag : bytes) : outcome (list N) :=
-  if len frag <? 4 then Panic P_slice                      (* &fragment[0..4] *)
+  if len frag <? 4 then Err E_custom                       (* fragment.get(0..4)? *)
   else
     let nr := le_val (firstn 4 frag) in
-    if 2 ^ 32 <=? 4 * (nr + 1) then Panic P_overflow       (* 4 * (nr_segments + 1) in u32 *)
-    else if len frag <? 4 * (nr + 1) then Panic P_slice    (* &fragment[4..4 * (nr + 1)] *)
+    if 15 <? nr then Err E_custom                          (* more segments than a header can describe *)
+    else if len frag <? 4 * (nr + 1) then Err E_custom     (* fragment.get(4..4 * (nr + 1))? *)
     else Ok (read_u32s (N.to_nat nr) (skipn 4 frag)).
 
 (** dst[i] = x *)
@@ -64,7 +64,7 @@ Definition upd (l : bytes) (i : nat) (x : N) : bytes := firstn i l ++ x :: skipn
 Fixpoint place (seg : bytes) (idx step endi : nat) (dst : bytes) : outcome bytes :=
   if (endi <=? idx)%nat then Ok dst
   else match seg with
-       | [] => Panic P_index
+       | [] => Err E_custom                                (* decoded_segment.get(..): "RLE segment is too short" *)
        | x :: seg' => place seg' (idx + step) step endi (upd dst idx x)
        end.
 
@@ -72,11 +72,11 @@ Fixpoint place (seg : bytes) (idx step endi : nat) (dst : bytes) : outcome bytes
 Definition slice_range (frag : bytes) (a b : N) : outcome bytes :=
   if (a <=? b) && (b <=? len frag)
   then Ok (firstn (N.to_nat (b - a)) (skipn (N.to_nat a) frag))
-  else Panic P_slice.
+  else Err E_custom.                                     (* fragment.get(start..end) = None *)
 
-(* offsets[ii] *)
+(* offsets.get(ii) *)
 Definition index (l : list N) (i : nat) : outcome N :=
-  match nth_error l i with Some x => Ok x | None => Panic P_index end.
+  match nth_error l i with Some x => Ok x | None => Err E_custom end.
 
 (** loop order: for sample_number in 0..spp { for byte_offset in (0..bps).rev() {..} } *)
 Definition sb_list (spp bps : nat) : list (nat * nat) :=
